@@ -160,6 +160,18 @@ def run(ctx):
         elif t[0] == "cmp":
             dv = ("const", False)       # breeze getters: equality test -> bool
         ok = dv is not None and (dv[0] == "enum" or (is_const(dv) and isinstance(dv[1], (bool, int, float)) and dv[1] is not None))
+        # the CLI converts with the *default's* type: a setting documented / annotated as float must default to a float,
+        # a bool one to a bool (otherwise 20.5 is truncated / True is parsed as a number)
+        st_ = ac.props_set.get(name)
+        if ok and st_ is not None and len(st_.node.args.args) > 1 and st_.node.args.args[1].annotation is not None and is_const(dv):
+            ann = norm(st_.node.args.args[1].annotation)
+            want_t = {"float": float, "bool": bool, "int": int}.get(ann)
+            if want_t is not None:
+                ok_t = type(dv[1]) is want_t
+                ctx.ob("C20.c", f"{AC}.{name}", ok_t, f"`{name}` takes a {ann} and its default {dv[1]!r} is a {ann}: the CLI converts with that type", func=f"{AC}.{name}",
+                       file=ac.module.rel, construct=f"{name} default type",
+                       fail=f"`{name}` takes a {ann} but its default is {dv[1]!r} ({type(dv[1]).__name__}): the CLI converts command-line values with the default's type "
+                            f"(e.g. 20.5 becomes {int(20.5) if want_t is float else 20.5})")
         ctx.ob("C20.c", f"{AC}.{name}", ok, f"default of `{name}` is {show(dv) if dv else None}: convertible", func=f"{AC}.{name}", file=ac.module.rel,
                construct=f"{name} default", fail=f"writable setting `{name}` has default {show(dv) if dv else 'unknown'}: the CLI cannot derive a conversion type from it")
     for q in sorted(enums):
@@ -249,6 +261,16 @@ def run(ctx):
         if any(isinstance(c, ast.Call) and isinstance(c.func, ast.Attribute) and c.func.attr == "pop" for c in ast.walk(test)):
             return ["display_popped"]
         return []
+    def on_stmt3(node, st):
+        ev = on_stmt2(node, st)
+        out = list(ev)
+        if "setattr" in ev:
+            out.append("pending_set")
+        if ("toggle_display" in ev or "refresh" in ev) and "pending_set" in st:
+            out.append("clobbered")          # toggle_display() ends in a refresh, which overwrites the attributes just set
+        return out
+    may3 = EventAnalysis(must=False, on_stmt=on_stmt3, on_branch=on_branch2)
+    run_events(prog, fn, may3)
     must = EventAnalysis(must=True, on_stmt=on_stmt2, on_branch=on_branch2)
     run_events(prog, fn, must)
     may = EventAnalysis(must=False, on_stmt=on_stmt2, on_branch=on_branch2)
@@ -292,6 +314,10 @@ def run(ctx):
                             nonempty = True
                 ctx.ob("C20.e", fn.qual, {"refresh", "setattr"} <= st or ("refresh" in st and "setattr" in may.at[node]), "apply follows refresh and the setattr loop", func=fn.qual, file=file, node=node,
                        fail="apply() does not follow the refresh and the assignment of the settings")
+                ctx.ob("C20.e", fn.qual, "clobbered" not in may3.at.get(node, frozenset()), "nothing refreshes the device object between the setattr loop and apply",
+                       func=fn.qual, file=file, node=node,
+                       fail="a refresh (e.g. inside toggle_display) can run after the settings were assigned and before apply(): the assigned values are overwritten "
+                            "by the reported state and apply() re-sends the old state")
                 ctx.ob("C20.e", fn.qual, nonempty, "apply is skipped when no other setting is pending", func=fn.qual, file=file, node=node,
                        detail={"facts": [show(f)[:80] for f in facts]}, fail="apply() is sent even when nothing but the display was requested")
             if nm == "toggle_display":
